@@ -37,6 +37,7 @@ rm -f /tmp/confirm_base_$NAME.txt /tmp/confirm_patch_$NAME.txt
 if [ -n "$(git -C /repo status --porcelain)" ]; then say "RESULT /repo not clean, skipping detection run"; exit 1; fi
 git -C /repo apply "$DST"/patch.diff
 mkdir -p /tmp/seedverif_$NAME
+cp /verif/known_findings.txt /tmp/seedverif_$NAME/ 2>/dev/null
 for p in $(echo "$PROP" | tr ',' ' '); do
   bin/rlint -repo /repo -prop "$p" -tier quick -verif /tmp/seedverif_$NAME > "$DST"/detect_$p.log 2>&1; rc=$?
   if [ $rc -eq 0 ]; then say "check $p: NOT detected (exit 0)"; elif [ $rc -eq 1 ]; then say "check $p: DETECTED"; grep -E "VIOLATED|UNDECIDED" "$DST"/detect_$p.log | head -5 | cut -c1-300 | tee -a "$LOG"; else say "check $p: not run (exit $rc)"; rm -f "$DST"/detect_$p.log; fi
